@@ -5,15 +5,20 @@ import mirrorlib
 META = {
     "engine": "coq+correspondence",
     "technique": "Coq invariant proof (voting validator set = genesis or committed header's next set, lists match hashes) over all "
-                 "histories of the mirror-kernel model + differential correspondence with forged-list proposals on the real mirror",
+                 "histories of the mirror-kernel model + differential correspondence with forged-list proposals on the real mirror; "
+                 "state-machine half: correspondence of the real state machine with Model/StateMachine.v + Coq monitors on its observations",
     "level": "P/partial. Proved for all histories of the sequential mirror model (incl. replayed headers): the voting and next-round "
              "validator set is the genesis set before the first commit and otherwise exactly the committing header's next set, whose "
              "lists match the hashes covered by the block hash; only hash-consistent proposals are held; every held proposal and every "
              "committed header NAMES, as its own validator set, the set the chain prescribes for its height (chain_vals) - after the repo "
              "fix that compares the field, found while proving kernel totality. Monitored on the real mirror on every run (consistency "
              "flags computed with the real hash scheme; own set of each committed header = next set of the header below). Partial: the "
-             "state-machine half (set used at h+2 = driver's finalization of h) is decided in C08's state-machine model; restart: proved in "
-             "C10, and the generated histories here include crashes and restarts after validator-set changes.",
+             "state-machine half (set used at h+2 = driver's finalization of h) is MONITORED, not proved: the real tmstate.StateMachine is "
+             "driven through walked and scripted histories with changing sets (incl. a restart in commit wait and headers whose sets "
+             "have the right keys and other powers) and judged by the Coq monitors c07_sm_valset / c07_sm_considered_match, next to the "
+             "step-by-step correspondence with Model/StateMachine.v; restart: proved in "
+             "C10, and the generated histories here include crashes and restarts after validator-set changes, replays two rounds ahead "
+             "and replays that leave the set unchanged with a forged next list (template 12).",
     "note": "Trusted: Coq kernel; vs_ok / hd_ok flags stand for hash equality (no collisions among generated inputs); "
             "correspondence harness. No axioms.",
     "design_ref": "DESIGN.md 4 (C01/C04/C05/C07)",
